@@ -11,3 +11,5 @@ LEVEL_TEXT = "Deductive proof of the statement shape (loop invariant on the text
 LEVEL_NOTE = "Trusts the pyvc encoding, z3/cvc5; regions of recorded finding K-8 are excluded by explicit predicates (listed in the evidence) and replayed by witnesses."
 TECHNIQUE = "contract-based deductive verification (VCs from the ast of the real functions, z3/cvc5) + bounded boundary table"
 UNITS = [SQ.unit_integer_sql_ansi_type(), SQ.unit_other_sql_ansi_types(), SQ.unit_assert_is_valid_ansi_type(), SQ.unit_dialect_sql_type(), SQ.unit_sql_fields(), SQ.unit_is_keyword(), SQ.unit_create_table_statement(), SQ.unit_c19_table(), TOK.unit_sweep_decimal_text()] + RD.units_decimal_range_init()
+from contracts import ranges_init as RI
+UNITS += RI.units_range_init(shapes=[(1, 1, 1)], props=("C01", "C19"))
